@@ -127,6 +127,8 @@ def impl_main():
             return ("fill", f) if f else ("good",)
         if is_cc(o):
             return ("cc", sense_bytes(o))
+        if o == "ccnone":
+            return ("cc", None)
         if o == "oserror":
             return ("raise", OSError(5, "EIO"))
         return ("raise", sgio.UnspecifiedError(o))
@@ -139,6 +141,8 @@ def impl_main():
             return 0, None, (state["fill"](len(din)) if din is not None else None)
         if is_cc(o):
             return 2, sense_bytes(o), None
+        if o == "ccnone":
+            return 2, "absent", None
         return ISCSI_STATUS.get(o, 0x28), None, None
 
     def fresh(transport):
@@ -240,6 +244,12 @@ def gen_hists(seed, count):
                 for fmt in ("f", "d") + (("u", "z") if (asc, ascq) in ((0, 0), (0x29, 0)) else ()):
                     m = ("testunitready", "readcapacity10", "raw_execute", "inquiry")[(k + asc + ascq) % 4]
                     hists.append(dict(t=t, steps=[dict(m=m, outcomes=["cc:%d:%d:%d:%s" % (k, asc, ascq, fmt), "good"], fill="zeros", seed=1)]))
+    # CHECK CONDITION reported without any sense data (the binding has none to give): whatever the library makes of it — today a TypeError from
+    # decoding `None` — it happens AFTER the command went out: the command is not handed over again and the call does not return normally
+    for t in ("sg", "iscsi"):
+        for m in names:
+            hists.append(dict(t=t, steps=[dict(m=m, outcomes=["ccnone", "good", "good"], fill="zeros", seed=1),
+                                          dict(m=rng.choice(names), outcomes=["good", "good"], fill="random", seed=rng.randrange(1 << 30))]))
     fam = ["readcapacity16", "getlbastatus", "reporttargetportgroups", "reportpriority"]
     for t in ("sg", "iscsi"):
         for a in fam:
@@ -269,7 +279,8 @@ def oracle_step(t, st, r, aspects):
         ata = st["m"] in ("atapassthrough12", "atapassthrough16")
         if o[0] == "return" and first != "good":
             # the ATA PASS-THROUGH methods ask for raw sense: over SG_IO a CHECK CONDITION then comes back attached to the command
-            if not (ata and is_cc(first) and r.get("raw_sense")):
+            # (and when the binding has no sense data to give there is nothing to attach: outside the contract of §6, not judged)
+            if not (ata and ((is_cc(first) and r.get("raw_sense")) or first == "ccnone")):
                 return "status", "%s returned normally although the target answered %s" % (st["m"], first)
         status_errors = ("BusyStatus", "ReservationConflict", "TaskSetFull", "ACAActive", "TaskAborted", "ConditionsMet", "UnspecifiedError",
                          "OSError", "CheckConditionError")
@@ -280,6 +291,8 @@ def oracle_step(t, st, r, aspects):
             undecodable = first.endswith(":u") or first.endswith(":z")
             if o[0] != "cc" or (not undecodable and (o[1] != asc or o[2] != ascq)):
                 return "status", "%s: CHECK CONDITION %02x/%02x surfaced as %s" % (st["m"], asc, ascq, o)
+        if first == "ccnone" and o[0] == "return" and not ata:
+            return "status", "%s returned normally although the target answered CHECK CONDITION (no sense data available)" % st["m"]
         if first in ("busy", "conflict", "oserror") and o[0] != "exn":
             return "status", "%s: %s surfaced as %s" % (st["m"], first, o)
         if o[0] == "return" and r.get("raw_sense") and st["m"] not in ("atapassthrough12", "atapassthrough16"):
